@@ -1,0 +1,30 @@
+//go:build verif
+
+package merklize
+
+// Read-only accessors used by the external verification harness
+// (build tag "verif"). Nothing here is compiled into normal builds.
+
+// VerifKeyParts returns the parts of the entry's key path.
+func (e RDFEntry) VerifKeyParts() []interface{} { return e.key.parts }
+
+// VerifValue returns the entry's decoded value.
+func (e RDFEntry) VerifValue() any { return e.value }
+
+// VerifDatatype returns the entry's datatype.
+func (e RDFEntry) VerifDatatype() string { return e.datatype }
+
+// VerifHasher returns the hasher stored in the entry (may be nil).
+func (e RDFEntry) VerifHasher() Hasher { return e.hasher }
+
+// VerifEntries returns the merklizer's entries keyed by key hash.
+func (mz *Merklizer) VerifEntries() map[string]RDFEntry { return mz.entries }
+
+// VerifCompacted returns the compacted form of the source document.
+func (mz *Merklizer) VerifCompacted() map[string]interface{} { return mz.compacted }
+
+// VerifSrcDoc returns the source document bytes.
+func (mz *Merklizer) VerifSrcDoc() []byte { return mz.srcDoc }
+
+// VerifSafeMode returns the safe-mode flag.
+func (mz *Merklizer) VerifSafeMode() bool { return mz.safeMode }
